@@ -2334,6 +2334,7 @@ func (d *Data) StoreElements(ctx *datastore.VersionedCtx, r io.Reader, kafkaOff 
 		}
 	}
 
+	dvid.VerifPoint("annotation.StoreElements", uint64(len(elems)))
 	return batch.Commit()
 }
 
@@ -2357,6 +2358,7 @@ func (d *Data) DeleteElement(ctx *datastore.VersionedCtx, pt dvid.Point3d, kafka
 		return fmt.Errorf("Did not find element %s in datastore", pt)
 	}
 
+	dvid.VerifPoint("annotation.DeleteElement", uint64(len(elems)))
 	// Put block key version without given element
 	if err := putElements(ctx, tk, elems); err != nil {
 		return err
@@ -2407,6 +2409,7 @@ func (d *Data) DeleteElement(ctx *datastore.VersionedCtx, pt dvid.Point3d, kafka
 		}
 	}
 
+	dvid.VerifPoint("annotation.DeleteElement.commit", uint64(len(deleted.Tags)))
 	return batch.Commit()
 }
 
@@ -2463,6 +2466,7 @@ func (d *Data) MoveElement(ctx *datastore.VersionedCtx, from, to dvid.Point3d, k
 		}
 	}
 
+	dvid.VerifPoint("annotation.MoveElement", uint64(len(fromElems)))
 	if err := batch.Commit(); err != nil {
 		return err
 	}
@@ -2504,6 +2508,7 @@ func (d *Data) MoveElement(ctx *datastore.VersionedCtx, from, to dvid.Point3d, k
 		return err
 	}
 
+	dvid.VerifPoint("annotation.MoveElement.tags", uint64(len(moved.Tags)))
 	return batch.Commit()
 }
 
